@@ -121,7 +121,9 @@ def parse_cw(res):
         if isinstance(r, list):
             r = r[0]
         ops.append((r, int(o[1])))
-    return {"build_err": False, "built": int(built[1]), "ops": ops, "sink": C.unhex(p[-1])}
+    calls = [int(o[2]) for o in p[2:-1] if len(o) > 2]
+    return {"build_err": False, "built": int(built[1]), "ops": ops, "sink": C.unhex(p[-1]),
+            "built_calls": int(built[2]) if len(built) > 2 else None, "calls": calls if len(calls) == len(ops) else None}
 
 def parse_cr(res):
     """-> dict(open_err, json, meta, items=[('ok', text) | ('eof',) | ('err', class)])"""
@@ -410,6 +412,223 @@ def raw_view(header, sync, blocks):
     for cnt, pl in blocks:
         out += G.varint(cnt) + G.varint(len(pl)) + pl + sync
     return bytes(out)
+
+# ---------------------------------------------------------------- sink schedules (C06, C15, C16)
+# The harness' scheduled sink (harness/src/io.rs ScheduledWriter) and VectoredWrite.v's sink (next_ans / available) are
+# the same machine: one answer per call of `write` / `write_vectored` -- (a K): accept min(max(K,1), available) bytes, i:
+# Err(Interrupted), z: Ok(0), h: a hard error; the last answer repeats. VECTORED = 1: write_vectored GATHERS across all the
+# slices it is given (a short write may end anywhere, also strictly inside the 2nd or 3rd slice: block data, sync marker);
+# VECTORED = 0: std's default write_vectored (first non-empty slice only, a call never spans a slice boundary).
+HDR_ONE = "(a 1000000)"     # first answer: the file header (ONE write_all of build) goes out in one call, so that every
+                            # later call index is a call of some block flush
+
+def read_varint(b, pos):
+    shift, z = 0, 0
+    while True:
+        x = b[pos]; pos += 1
+        z |= (x & 0x7f) << shift
+        shift += 7
+        if not x & 0x80:
+            break
+    return (z >> 1) ^ -(z & 1), pos
+
+def file_blocks(sink, built):
+    """[(block header length, data length)] of the blocks behind the first `built` bytes of a file as the writer lays it
+    out (count, size, data, 16-byte marker); stops at the first thing that is not laid out like that"""
+    out, pos = [], built
+    try:
+        while pos < len(sink):
+            p0 = pos
+            _, pos = read_varint(sink, pos)
+            size, pos = read_varint(sink, pos)
+            if size < 0 or pos + size + 16 > len(sink):
+                break
+            out.append((pos - p0, size))
+            pos += size + 16
+    except IndexError:
+        pass
+    return out
+
+def sched_sx(vectored, answers):
+    return "(sched %d %s)" % (vectored, " ".join(answers))
+
+def expand(answers, n):
+    """the first n answers of a schedule (the last one repeats)"""
+    return [answers[min(i, len(answers) - 1)] for i in range(n)]
+
+def base_schedules(rng, blocks, chop_header=True, n_random=2):
+    """benign partial-write sinks for one file whose blocks are `blocks` = [(header length, data length)]:
+    k bytes per call for k in {1,2,3} (gathering and default write_vectored), for k in 2..48 such that some block has
+    header + data = m*k (a call ends exactly where the sync marker starts) or header + data + 16 = m*k, k strictly between
+    the header length and header + data (a gathering sink's first call ends strictly inside the data), random k in 4..48,
+    irregular sizes. -> [(tag, vectored, answers)] ; all but the 'chopped' ones let the file header through in one call"""
+    out = []
+    for k in (1, 2, 3):
+        for v in (0, 1):
+            out.append(("k%d" % k, v, [HDR_ONE, "(a %d)" % k]))
+    ks = set()
+    div = [k for k in range(4, 49) if any((h + b) % k == 0 for h, b in blocks if b)]
+    div2 = [k for k in range(4, 49) if any((h + b + 16) % k == 0 for h, b in blocks if b)]
+    inside = [k for k in range(4, 49) if any(h < k < h + b for h, b in blocks)]
+    inside3 = [k for k in range(4, 49) if any(h + b < k < h + b + 16 for h, b in blocks)]
+    for cands, cnt in ((div, 2), (div2, 1), (inside, 2), (inside3, 1), (list(range(4, 49)), n_random)):
+        for _ in range(cnt):
+            if cands:
+                ks.add(rng.choice(cands))
+    for k in sorted(ks):
+        v = rng.randint(0, 1)
+        out.append(("k%d" % k, v, [HDR_ONE, "(a %d)" % k]))
+        if k in inside or k in inside3 or rng.random() < 0.3:
+            out.append(("k%d" % k, 1 - v, [HDR_ONE, "(a %d)" % k]))
+    for _ in range(2):
+        ans = [HDR_ONE] + ["(a %d)" % rng.choice([1, 1, 2, 3, 4, 5, 7, 15, 16, 17, 18, 19, 33, 48, 1000]) for _ in range(rng.randint(2, 14))]
+        out.append(("irregular", rng.randint(0, 1), ans))
+    if chop_header:
+        for k in rng.sample([1, 2, 3, 5, 16, 17, 100], 2):
+            out.append(("chopped-header-k%d" % k, rng.randint(0, 1), ["(a %d)" % k]))
+    return out
+
+def flush_ranges(p):
+    """[(first call index, end call index)] of the calls that each writer call made on the sink, from the harness' result"""
+    out = []
+    prev = p["built_calls"]
+    for c in p["calls"]:
+        if c > prev:
+            out.append((prev, c))
+        prev = c
+    return out
+
+def injected_schedules(rng, answers, p, singles=10, bad=True):
+    """schedules derived from a benign one whose run on the crate is `p` (call counts per writer call): 'interrupted'
+    injected at call indexes of block flushes -- first call of a flush, after partial progress, last call, anywhere; bursts of
+    2 / 16 / 17 / 18 / 40 interruptions after partial progress; every call interrupted once (> 16 interruptions in total
+    during one flush as soon as a flush takes > 16 calls), every call interrupted twice, random interruptions; and (bad)
+    a zero-length write / hard error at a call index. -> [(kind, tag, answers)], kind in benign | z | h"""
+    total = p["calls"][-1] if p["calls"] else p["built_calls"]
+    c0 = p["built_calls"]
+    fl = flush_ranges(p)
+    out = []
+    if total <= c0 or not fl:
+        return out
+    base = expand(answers, total + 1)
+    def inject(pos, what):
+        return base[:pos] + what + base[pos:]
+    pos = set()
+    if total - c0 <= singles:
+        pos = set(range(c0, total))
+    else:
+        for (s, e) in rng.sample(fl, min(len(fl), 3)):
+            pos.update([s, min(s + 1, e - 1), e - 1, rng.randrange(s, e)])
+        while len(pos) < singles:
+            pos.add(rng.randrange(c0, total))
+    for q in sorted(pos)[:singles + 4]:
+        out.append(("benign", "i@%d" % q, inject(q, ["i"])))
+    for n in (2, 16, 17, 18, 40):
+        s, e = rng.choice(fl)
+        q = rng.randrange(s, e) if rng.random() < 0.3 else min(s + rng.randint(1, 3), e - 1)
+        out.append(("benign", "i*%d@%d" % (n, q), inject(q, ["i"] * n)))
+    out.append(("benign", "every-call-interrupted-once", base[:c0] + [x for a in base[c0:] for x in ("i", a)]))
+    out.append(("benign", "every-call-interrupted-once-after-the-first", base[:c0 + 1] + [x for a in base[c0 + 1:] for x in ("i", a)]))
+    out.append(("benign", "every-call-interrupted-twice", base[:c0] + [x for a in base[c0:] for x in ("i", "i", a)]))
+    out.append(("benign", "random-interruptions", [x for a in base for x in (["i"] * rng.choice([0, 0, 1, 1, 2, 5]) + [a])]))
+    if bad:
+        for kind in ("z", "h"):
+            qs = {rng.randrange(0, total), rng.randrange(c0, total)}
+            s, e = rng.choice(fl)
+            qs.add(min(s + 1, e - 1))
+            for q in sorted(qs):
+                pre = base[:q]
+                if rng.random() < 0.3:
+                    pre = [x for a in pre for x in (["i"] if rng.random() < 0.3 else []) + [a]]
+                out.append((kind, "%s@%d" % (kind, len(pre)), pre + [kind, "(a 1000000)"]))
+    return out
+
+def sized_history(rng, k):
+    """schema `bytes`, one value per block, lengths such that block header + block data = m*k for several m (a sink taking
+    k bytes per call ends a call exactly where the sync marker starts), and one off by one"""
+    h = History.__new__(History)
+    h.rng = rng
+    h.nodes = [G.Node("bytes")]
+    by_total = {}
+    for L in range(0, 400):
+        b = len(G.varint(L)) + L
+        by_total.setdefault(1 + len(G.varint(b)) + b, L)
+    ms = [m for m in range(1, 400) if m * k in by_total]
+    pick = [ms[0], rng.choice(ms[:6]), rng.choice(ms[:40])]
+    lens = [by_total[m * k] for m in pick] + [by_total[pick[1] * k] + 1]
+    rng.shuffle(lens)
+    h.values = ["(bytes %s)" % C.hx(rng.randbytes(L)) for L in lens]
+    h.schema = G.schema_sx(h.nodes)
+    return h
+
+def scheduled_runs(rng, cases, n_inject_bases=3, bad=True, singles=10, chop_header=True, n_random=2):
+    """cases: [dict(h, ops, codec, bsz, meta, start, json, bp)] (bp = parse_cw of the run on the accept-everything sink).
+    Runs every case through the benign partial-write sinks of base_schedules, then -- the crate's per-call sink call counts
+    known -- through the schedules of injected_schedules derived from n_inject_bases of them; the writer model (null codec)
+    gets the same schedules. -> [dict(ci, kind, tag, vectored, sched, line, mline, res, pi, rm)]"""
+    specs = []
+    for ci, c in enumerate(cases):
+        blocks = file_blocks(c["bp"]["sink"], c["bp"]["built"])
+        for tag, v, answers in base_schedules(rng, blocks, chop_header=chop_header, n_random=n_random):
+            specs.append((ci, tag, v, answers))
+    return scheduled_runs_from(rng, cases, specs, n_inject_bases=n_inject_bases, bad=bad, singles=singles)
+
+def scheduled_runs_from(rng, cases, specs, n_inject_bases=3, bad=True, singles=10):
+    """scheduled_runs with the benign base schedules given: specs = [(case index, tag, vectored, answers)]"""
+    runs = []
+    def mk(ci, kind, tag, v, answers):
+        c = cases[ci]
+        sx = sched_sx(v, answers)
+        line = with_start(c.get("start"), cw_line(c["h"], c["codec"], c["bsz"], sx, c["meta"], c["ops"]))
+        mline = cw_line(c["h"], c["codec"], c["bsz"], sx, c["meta"], c["ops"], with_json=c["json"]) if c["codec"] == "null" else None
+        return {"ci": ci, "kind": kind, "tag": tag, "vectored": v, "answers": answers, "sched": sx, "line": line, "mline": mline}
+    bases = [mk(ci, "benign", tag, v, answers) for ci, tag, v, answers in specs]
+    for r, res in zip(bases, C.run_parallel(C.AVRODRIVE, [r["line"] for r in bases])):
+        r["res"], r["pi"] = res, parse_cw(res)
+    runs.extend(bases)
+    inj = []
+    by_case = {}
+    for r in bases:
+        if r["pi"] and not r["pi"].get("build_err") and r["pi"].get("calls") and r["answers"][0] == HDR_ONE:
+            by_case.setdefault(r["ci"], []).append(r)
+    for ci, rs in by_case.items():
+        small = [r for r in rs if r["tag"] in ("k1", "k2", "k3")]
+        pick = []
+        for v in (1, 0):
+            cand = [r for r in small if r["vectored"] == v]
+            if cand:
+                pick.append(rng.choice(cand))
+        rest = [r for r in rs if r not in pick]
+        while len(pick) < n_inject_bases and rest:
+            pick.append(rest.pop(rng.randrange(len(rest))))
+        for r in pick[:n_inject_bases]:
+            for kind, tag, answers in injected_schedules(rng, r["answers"], r["pi"], singles=singles, bad=bad):
+                inj.append(mk(ci, kind, "%s/%s" % (r["tag"], tag), r["vectored"], answers))
+    for r, res in zip(inj, C.run_parallel(C.AVRODRIVE, [r["line"] for r in inj])):
+        r["res"], r["pi"] = res, parse_cw(res)
+    runs.extend(inj)
+    ml = [r for r in runs if r["mline"] is not None]
+    for r, rm in zip(ml, run_model([r["mline"] for r in ml])):
+        r["rm"] = rm
+    for r in runs:
+        r.setdefault("rm", None)
+    return runs
+
+def canon_ops(ops):
+    return [("ok" if r == "ok" else ("gone" if r == "gone" else "err"), l) for r, l in ops]
+
+def model_vs_run(r):
+    """the writer model under the same schedule: same build outcome, per-call outcomes, sink lengths, final bytes -> None | difference"""
+    if r["rm"] is None or r["rm"] == "(unmodelled)":
+        return None
+    pi, pm = r["pi"], parse_cw(r["rm"])
+    if pi is None:
+        return None
+    if pm is None or bool(pm.get("build_err")) != bool(pi.get("build_err")) or (
+            not pi.get("build_err") and (canon_ops(pm["ops"]) != canon_ops(pi["ops"]) or pm["sink"] != pi["sink"])):
+        return {"impl_case": r["line"], "model_case": r["mline"], "impl": r["res"][:500], "model": r["rm"][:500],
+                "what": "writer model and crate differ under the sink schedule %s" % r["tag"]}
+    return None
 
 def run_model(lines):
     """the extracted model / reference parser on long inputs: run with a large stack (they recurse along the bytes)"""
